@@ -53,7 +53,14 @@ async fn episode(p: &EpParams) -> EpReport {
     let c0 = Cx::new(&w, 0);
     let (t, s) = (topic_name(1, 1), sub_name(1, 1));
     c0.create_topic(&t).await.ok();
-    c0.create_sub(&s, &t, 10).await.ok();
+    // a quarter of the episodes: the subscription carries a push config (no push loop runs here);
+    // Pull and StreamingPull on it are served and woken like on any other subscription
+    if rng.chance(1, 4) {
+        c0.create_sub_full(&s, &t, 10, Some("http://127.0.0.1:9/push"), Default::default()).await.ok();
+        rep.inc("episodes_on_a_push_configured_subscription");
+    } else {
+        c0.create_sub(&s, &t, 10).await.ok();
+    }
     let mut waiters: Vec<Waiter> = Vec::new();
     let mut known_leases: Vec<String> = Vec::new();
     let mut next_client = 10u32;
